@@ -18,7 +18,7 @@ RUN_REQUIRES = {
         "(is_none(G_ctx_feature) or typeof_is(G_ctx_feature, 'Feature')) and (G_ctx_rule is ABSENT or typeof_is(G_ctx_rule, 'Rule'))",
 }
 RUN_MODIFIES = ["G_bad", "G_nhooks", "G_hook_name", "G_hook_arg", "G_ncalls", "G_calls", "G_nev", "G_ev_kind",
-                "G_ev_arg", "G_ctx_aborted", "G_ctx_scenario", "G_ctx_feature", "G_ctx_depth", "G_ctx_saved_scenario", "G_ctx_rule", "G_ctx_saved_rule",
+                "G_ev_arg", "G_ev_status", "G_ctx_aborted", "G_ctx_scenario", "G_ctx_feature", "G_ctx_depth", "G_ctx_saved_scenario", "G_ctx_rule", "G_ctx_saved_rule",
                 "G_npops", "G_ncleanup_runs", "G_log_installed", "G_ctx_writes",
                 "*.status", "*.hook_failed", "*.duration", "*.exception", "*.exc_traceback", "*.error_message",
                 "*.captured", "*.should_skip", "*.skip_reason", "*._cached_status", "*._background_steps",
